@@ -799,7 +799,7 @@ void vf_run(const uint8_t *data, size_t len)
         }
         nops++;
         uint64_t fh = g_faults_hit;
-        if (cx.c16 && g_faults_hit && g_also_ours.empty()) g_also_ours = {"C03", "C04"};
+        if (cx.c16) g_ours_after_fault = {"C03", "C04"};     // also for the op that receives the first failure
         run_op(op, a, b, c, ntab, K, maxlive);
         if (cx.fault_seen && g_applied) cx.ops_after_fault++;
         if (g_faults_hit != fh) cx.fault_seen = true;
